@@ -115,6 +115,7 @@ def evalC19Flight (ins outs : List String) : Verdict :=
   | some n, some reqs, some results =>
     let rs := results.splitOn ","
     if (kv? ins "answer").any (·.startsWith "softbad") && rs.any (· == "44") then .prop "c19_soft_failing_head_not_adopted" results else
+    if rs.any (· == "panic") then .prop "c19_singleflight_shared_result" s!"a caller panicked: {results}" else
     if reqs != 1 then .prop "c19_singleflight_one_request" s!"reqs={reqs} n={n}"
     else if rs.length != n || !(rs.all (· == rs.headD "")) then .prop "c19_singleflight_shared_result" results
     else .ok s!"flight{n}"
